@@ -6,6 +6,7 @@ import (
 	"runtime"
 	"strings"
 	"sync"
+	"sync/atomic"
 	"time"
 
 	"github.com/vimeo/dials"
@@ -28,7 +29,7 @@ func init() {
 		MinDistinct: map[string]int{"quick": 700, "thorough": 50000},
 		MinCounters: map[string]map[string]int64{
 			"quick": {"fresh_stack_comparisons": 1500, "installs_observed": 5000, "serial_pairs_checked": 20000,
-				"reports_after_a_repeated_done": 200, "nonverifying_installs_after_a_failed_enableverification": 40, "fresh_stack_comparisons_with_verification_delayed": 80},
+				"reports_after_a_repeated_done": 200, "nonverifying_installs_after_a_failed_enableverification": 40, "fresh_stack_comparisons_with_verification_delayed": 80, "views_compared_right_after_a_report_cancelled_at_receive": 500},
 			"thorough": {"fresh_stack_comparisons": 80000, "installs_observed": 400000,
 				"reports_after_a_repeated_done": 10000, "nonverifying_installs_after_a_failed_enableverification": 2000},
 		},
@@ -180,11 +181,18 @@ func runC05(w *fw.Worker) {
 		ctx := e.S.Ctx
 		mon := newSerialMon()
 		mon.see(0, e.D.View(), "initial View")
+		var cancelAtRecv atomic.Pointer[context.CancelFunc]
 		e.ExtraHook = func(name string, _ context.Context, args []any) {
 			if name == "mon.stored" && len(args) >= 3 {
 				serial, _ := args[1].(uint64)
 				cfg, _ := args[2].(*conc.Cfg)
 				mon.see(serial, cfg, "mon.stored")
+			}
+			if name == "mon.recv" {
+				// (on the monitor goroutine, before it handles what it received)
+				if c := cancelAtRecv.Swap(nil); c != nil {
+					(*c)()
+				}
 			}
 		}
 		st := e.Model.Initial
@@ -369,6 +377,36 @@ func runC05(w *fw.Worker) {
 						trace = append(trace, fmt.Sprintf("src=%d %s abandoned-in-verify=%v", s, al, abandoned))
 						if abandoned {
 							w.Count("reports_abandoned_inside_verify", 1)
+						}
+					}
+					if e.Srcs[s] != nil && r.Chance(6) {
+						// the reporter's context ends at the moment the monitor receives the value: the hand-over has
+						// happened, so the monitor stacks the value like any other, whatever the call returns; the view
+						// is compared at once (after a monitor fence), before anything else re-stacks
+						cl := e.RandLayer(r, invPct, 0)
+						cctx, ccancel := context.WithCancel(ctx)
+						cf := ccancel
+						cancelAtRecv.Store(&cf)
+						cres, _ := e.Report(cctx, 0, s, cl, true)
+						cancelAtRecv.Store(nil)
+						ccancel()
+						ans := e.Model.Step(st, conc.In{Kind: conc.OpReport, Src: s, Layer: cl, Blocking: true}, conc.Out{Res: cres})
+						if len(ans) == 0 {
+							w.Violation(i, "blocking-report-result-disagrees-with-model", fmt.Sprintf("report %s (context ended as the monitor received it) res=%d", cl, cres), trace)
+							break phases
+						}
+						trace = append(trace, fmt.Sprintf("src=%d %s cancelled-at-receive -> %d", s, cl, cres))
+						w.Count("reports_cancelled_as_the_monitor_received_them", 1)
+						if len(ans) == 1 && e.FenceMonitor(ctx) {
+							st = ans[0].(conc.State)
+							w.Count("views_compared_right_after_a_report_cancelled_at_receive", 1)
+							if !compare(fmt.Sprintf("right after a report of source %d whose context ended as the monitor received it", s)) {
+								break phases
+							}
+						} else {
+							// the outcome is not determined by what was observed: settle it with an ordinary report of the
+							// same source (the loop's next step does that), as for the abandoned-in-Verify step
+							st = ans[0].(conc.State)
 						}
 					}
 					var res int
